@@ -405,3 +405,34 @@ def run_cache_key(P, rep, rule="R-CACHEKEY"):
             else:
                 rep.ok(rule, site, P.where(fn, t["line"]), "insert(name.to_string(), result): key is a plain copy of the requested name")
     rep.analysed[rule + ".writes"] = n
+
+
+# ---------------------------------------------------------------------------------------
+# R-NOSKIP: include always looks its partial up
+
+def run_no_skip(P, rep, rule="R-NOSKIP"):
+    """Include::render_to (stdlib and jekyll): every `Ok(())` exit is dominated by the PartialStore lookup — no path returns
+    success without having asked the store for the named partial (an empty or odd name must fail like any unknown partial)."""
+    keys = ["<liquid_lib::stdlib::tags::include_tag::Include as liquid_core::runtime::renderable::Renderable>::render_to",
+            "<liquid_lib::jekyll::include_tag::Include as liquid_core::runtime::renderable::Renderable>::render_to"]
+    for key in keys:
+        fns = P.by_key(key)
+        if len(fns) != 1:
+            rep.anchor_missing(rule, key)
+            continue
+        fn = fns[0]
+        site = key.split(" as ")[0].lstrip("<").rsplit("::", 2)[-2] + "::Include"
+        gets = [bi for bi, t in P.calls(fn) if t.get("f") and t["f"].get("trait") == STORE and t["f"]["id"].rsplit("::", 1)[1] in ("get", "try_get")]
+        oks = [bi for bi, b in enumerate(fn.blocks) for st in b["s"]
+               if st[0] == "a" and st[1][0] == 0 and not st[1][1] and st[2]["k"] == "agg" and st[2].get("vname") == "Ok"]
+        if not gets:
+            rep.viol(rule, site, P.where(fn), "no PartialStore lookup found in the include tag")
+            continue
+        und = [o for o in oks if not any(P.dominates(fn, g, o) for g in gets)]
+        if und:
+            line = [st[3] for st in fn.blocks[und[0]]["s"] if st[0] == "a" and st[1][0] == 0][0]
+            rep.viol(rule, site, P.where(fn, line),
+                     "the include tag can return Ok(()) without looking its partial up: a name that selects this path renders a silent blank instead of "
+                     "failing like any other unknown partial")
+        else:
+            rep.ok(rule, site, P.where(fn), "every Ok(()) exit is dominated by the store lookup (%d exits)" % len(oks))
